@@ -80,3 +80,13 @@ claim(
     "functools.lru_cache as reference where it applies; retained results counted via the public lru_cache_items RunVar; cache_info() not judged concurrently",
     "DESIGN.md 5/C20",
 )
+
+claim(
+    "C08",
+    "runtime monitor over a completely enumerated operation x state x config table: call_soon marker (yield), cancelled-scope probe (cancellation check), object-state probe (effect not performed)",
+    "The declared table (every listed primitive in each state where it completes without waiting, Condition.wait and to_thread in a "
+    "cancelled scope, reduce, the empty task group, all 20 itertools functions x 4 source kinds x parameters) is enumerated "
+    "completely on asyncio, asyncio+eager and uvloop every run; thorough adds seeded parameter variation. Cells outside the table are not judged.",
+    "a call_soon callback queued before the call runs iff the call yielded; fast_acquire and *_nowait/close are exempt by the statement",
+    "DESIGN.md 5/C08",
+)
